@@ -365,6 +365,14 @@ def make_strategy(symbol, script, ctx):
             if k in ('sl', 'tp', 'both'):
                 ref = self.price if a.get('ref', 'price') == 'price' else self.position.entry_price
                 self._declare(self._exits(a, q, ref, ref, long))
+            elif k in ('nudge_sl', 'nudge_tp'):
+                # in-place edit of the declared array (what `self.stop_loss[0, 1] = x` does in a user strategy)
+                arr = self.stop_loss if k == 'nudge_sl' else self.take_profit
+                if isinstance(arr, np.ndarray) and arr.ndim == 2 and len(arr) > 0:
+                    sgn = (-1 if long else 1) if k == 'nudge_sl' else (1 if long else -1)
+                    newp = arr[0, 1] + sgn * a.get('off', 1) * tick
+                    if newp > 0:
+                        arr[0, 1] = newp
             elif k == 'add':
                 pts = [(unit * a.get('frac', 1), _price(self.price, (-1 if long else 1) * a.get('off', 0), tick))]
                 if long:
